@@ -14,6 +14,72 @@ use rand::Rng;
 
 const DEFAULT_MAX_HEIGHT: usize = 12;
 
+/// Verification hooks, compiled only with `--cfg rescrv_blue_verif`: an allocation registry that
+/// asserts every dereferenced node is live, and a callback between an insert's search and its
+/// compare-and-swap.
+#[cfg(rescrv_blue_verif)]
+pub mod verif {
+    use std::collections::HashSet;
+    use std::sync::Mutex;
+    use std::sync::atomic::{AtomicBool, AtomicUsize, Ordering};
+
+    static REGISTRY_ON: AtomicBool = AtomicBool::new(false);
+    static LIVE: Mutex<Option<HashSet<usize>>> = Mutex::new(None);
+
+    /// Turn the registry on or off.  Nodes allocated while it is off are not tracked, and only
+    /// tracked lists should be used while it is on.
+    pub fn set_registry(on: bool) {
+        let mut live = LIVE.lock().unwrap();
+        *live = if on { Some(HashSet::new()) } else { None };
+        REGISTRY_ON.store(on, Ordering::SeqCst);
+    }
+
+    pub(crate) fn on_alloc(ptr: usize) {
+        if REGISTRY_ON.load(Ordering::Relaxed) {
+            if let Some(live) = LIVE.lock().unwrap().as_mut() {
+                live.insert(ptr);
+            }
+        }
+    }
+
+    pub(crate) fn on_free(ptr: usize) {
+        if REGISTRY_ON.load(Ordering::Relaxed) {
+            if let Some(live) = LIVE.lock().unwrap().as_mut() {
+                live.remove(&ptr);
+            }
+        }
+    }
+
+    pub(crate) fn assert_live(ptr: usize) {
+        if REGISTRY_ON.load(Ordering::Relaxed) {
+            let live = LIVE.lock().unwrap();
+            if let Some(live) = live.as_ref() {
+                assert!(
+                    live.contains(&ptr),
+                    "skipfree verif: dereference of a node that is not live (freed or never allocated)"
+                );
+            }
+        }
+    }
+
+    pub type YieldFn = fn(&'static str);
+    static YIELD: AtomicUsize = AtomicUsize::new(0);
+
+    pub fn set_yield(f: Option<YieldFn>) {
+        YIELD.store(f.map(|f| f as usize).unwrap_or(0), Ordering::SeqCst);
+    }
+
+    #[inline]
+    pub(crate) fn yield_point(site: &'static str) {
+        let f = YIELD.load(Ordering::Relaxed);
+        if f != 0 {
+            // SAFETY: only ever stored from a YieldFn in set_yield.
+            let f: YieldFn = unsafe { std::mem::transmute::<usize, YieldFn>(f) };
+            f(site);
+        }
+    }
+}
+
 /////////////////////////////////////////////// Node ///////////////////////////////////////////////
 
 struct Node<K, V, const MAX_HEIGHT: usize = DEFAULT_MAX_HEIGHT> {
@@ -67,6 +133,8 @@ mod node_ptr {
     fn deref<'a, K, V, const MAX_HEIGHT: usize>(
         ptr: *mut Node<K, V, MAX_HEIGHT>,
     ) -> &'a Node<K, V, MAX_HEIGHT> {
+        #[cfg(rescrv_blue_verif)]
+        crate::verif::assert_live(ptr as usize);
         unsafe { &*ptr }
     }
 
@@ -127,6 +195,8 @@ impl<K, V, const MAX_HEIGHT: usize> Drop for Nodes<K, V, MAX_HEIGHT> {
         while !ptr.is_null() {
             let to_drop = ptr;
             ptr = node_ptr::get_next(ptr, 0);
+            #[cfg(rescrv_blue_verif)]
+            verif::on_free(to_drop as usize);
             drop(unsafe { Box::from_raw(to_drop) });
         }
     }
@@ -150,6 +220,8 @@ impl<K: Eq + Ord + Default, V: Default, const MAX_HEIGHT: usize> SkipList<K, V, 
         for idx in 0..height {
             'lockfree_looping: loop {
                 node_ptr::set_next(x, idx, obs[idx]);
+                #[cfg(rescrv_blue_verif)]
+                verif::yield_point("insert:before-cas");
                 if node_ptr::cas_next(prev[idx], idx, obs[idx], x) {
                     break 'lockfree_looping;
                 }
@@ -186,6 +258,14 @@ impl<K: Eq + Ord + Default, V: Default, const MAX_HEIGHT: usize> SkipList<K, V, 
     fn new_node(key: K, value: V, height: usize) -> *mut Node<K, V, MAX_HEIGHT> {
         assert!(height > 0);
         assert!(height <= MAX_HEIGHT);
+        #[cfg(rescrv_blue_verif)]
+        {
+            let node: *mut Node<K, V, MAX_HEIGHT> =
+                Box::leak(Box::new(Node::new(key, value, height)));
+            verif::on_alloc(node as usize);
+            node
+        }
+        #[cfg(not(rescrv_blue_verif))]
         Box::leak(Box::new(Node::new(key, value, height)))
     }
 
